@@ -26,11 +26,23 @@ def run(ctx):
 
     checks = []      # (label, lib_verdict, expectation, raw, prevouts, info)
 
+    agg = []         # (library verdict, per-input facts) for the aggregation model `txVerify`
+
     def lib_verify(t):
         try:
-            return bool(t.verify())
+            r = bool(t.verify())
         except Exception as e:
             return 'raise:' + type(e).__name__
+        try:
+            # what Transaction.verify makes of its inputs: every input passed its own check, and an input typed coinbase only counts as
+            # the single null-outpoint input (the per-input verdicts are read back from the objects)
+            facts = ','.join('%d:%d:%d' % (1 if i.script_type == 'coinbase' else 0, i.output_n_int,
+                                           1 if (i.script_type == 'coinbase' or bool(i.verify(t.signature_hash(i.index_n, i.hash_type, i.witness_type)))) else 0)
+                             for i in t.inputs)
+            agg.append((r, facts))
+        except Exception:
+            pass
+        return r
 
     def raw_of(t):
         try:
@@ -358,6 +370,15 @@ def run(ctx):
         # (no completeness demand: the script cannot be rebuilt from an address and some keys; but nothing invalid may be called valid)
         checks.append(('signed-address-only-multisig:' + mode, lib_verify(t), 'any', raw_of(t), '%s:%d' % (spk_.hex(), val_), info))
 
+    # --- the aggregation over the inputs is the model's (`txVerify`) ---------------------------------------------------------------
+    if agg:
+        res = run_driver(['tx_verify ' + (f or '-') for _, f in agg])
+        for (r, f), line in zip(agg, res):
+            ctx.evals += 1
+            ctx.count('aggregation:' + ('coinbase-typed-input' if any(x.startswith('1:') for x in f.split(',')) else 'plain'))
+            if line.split(' | ')[0].strip() != ('true' if r else 'false'):
+                ctx.violation('Transaction.verify() does not combine the verdicts of its inputs as the model does', {'op': 'tx_verify ' + f, 'library': r, 'model': line.split(' | ')[0]})
+                break
     # --- independent verdicts ------------------------------------------------------------------------------------
     idx = [k for k, c in enumerate(checks) if c[3] is not None and c[4] is not None]
     verdicts = lean_verdict([(checks[k][3], checks[k][4]) for k in idx])
